@@ -176,6 +176,9 @@ def run(rep, tier, root=None):
             rep.violation("P5.plain-inverse-dft", w.fq, "wrapper is not a scaled DFT: %s" % e, w.where())
     else:
         rep.unknown("P5.plain-inverse-dft", w.fq, "wrapper has several paths with FFT=None", w.where())
+    from ..common import purity_obligations
+    purity_obligations(rep, ix, [ix.func(MOD, n) for n in ("ft_phase_screen", "ft_sh_phase_screen", "ift2")], "P7.no-hidden-state",
+                       "the law of a screen would depend on the screens generated before it in the same process")
     rep.floor("C07 generators analysed", len(results), 2)
 
 
